@@ -101,10 +101,10 @@ def judgeConn (i : In) (impl : String) : Ans :=
       (if (hvals i.hdr kXRealIp).isSome then ["has-xri"] else []) ++
       (if (hvals i.hdr kXFF).isSome then ["has-xff"] else []) ++
       (if i.table.isEmpty then ["empty-table"] else []) ++
-      (if (BfeVerif.C26.connNames (resolve i).2).isEmpty then [] else ["conn-tokens"]) ++
+      (if (BfeVerif.C26.connNamesP BfeVerif.Generated.C29.hopProtected (resolve i).2).isEmpty then [] else ["conn-tokens"]) ++
       (if (hvals i.hdr BfeVerif.C25.kConnection).isSome &&
           (BfeVerif.C26.lookup i.hdr BfeVerif.C25.kConnection).any (fun v => !(BfeVerif.C25.splitOn 44 v).all fun t =>
-            !(BfeVerif.Generated.C26.hopProtected.contains (BfeVerif.C26.canon (BfeVerif.C26.trimSpace t)))) then ["conn-names-bfe-header"] else []) ++
+            !(BfeVerif.Generated.C29.hopProtected.contains (BfeVerif.C26.canon (BfeVerif.C26.trimSpace t)))) then ["conn-names-bfe-header"] else []) ++
       (if (hvals i.hdr kXRealIp).isSome || (hvals i.hdr kXFF).isSome then ["nt"] else []) ++
       (match clientAddr i with | none => ["ca-nil"] | some _ => [])
     match implOf impl with
